@@ -150,6 +150,9 @@ def get_scopes(x):
         assert scope2.required_scopes is not None
         if id(scope) == id(scope2):
             return True
+        elif id(scope2) == id(global_scope):
+            # The global scope requires only itself -> no other scope precedes it
+            return False
         elif scope in scope2.required_scopes:
             return True
         else:
